@@ -430,7 +430,178 @@ fn run_case(f: &std::collections::HashMap<String, String>) -> String {
     out.push(format!("sse={}", s32));
     let (g16, s16) = layout_scores::<Dna, U16>(&pssm, &dm, &seq);
     out.push(format!("g16={} s16={}", g16, s16));
+    // histories on ONE reused StripedScores<u8, U32> buffer
+    if let Some(h) = f.get("hist") {
+        for (k, hist) in h.split('|').enumerate() {
+            let (steps, fin) = run_history(&rows, &seq, hist);
+            out.push(format!("h{}={} hf{}={}", k, steps, k, fin));
+        }
+    }
     out.join(" ")
+}
+
+// ------------------------------------------------------------------ histories
+
+/// motif variants of a history step (the driver derives the same ones)
+fn motif_variant(rows: &[[f32; 5]], v: usize) -> Vec<[f32; 5]> {
+    let m = rows.len();
+    match v {
+        1 => rows[..(m + 1) / 2].to_vec(),
+        2 => {
+            if m >= 1 {
+                rows[1..].to_vec()
+            } else {
+                vec![]
+            }
+        }
+        3 => {
+            if m <= 12 {
+                let mut r = rows.to_vec();
+                r.extend_from_slice(rows);
+                r
+            } else {
+                rows.to_vec()
+            }
+        }
+        _ => rows.to_vec(),
+    }
+}
+
+/// sequence variants of a history step; `m` is the width of the MAIN motif
+fn seq_variant(seq: &[Nucleotide], m: usize, v: usize) -> Vec<Nucleotide> {
+    let l = seq.len();
+    match v {
+        1 => seq[..l / 3].to_vec(),
+        2 => {
+            let mut s = seq.to_vec();
+            s.extend_from_slice(seq);
+            s.truncate((2 * l).min(l + 40));
+            s
+        }
+        3 => seq[..l.min(m.max(1) - 1)].to_vec(),
+        4 => seq[..l.saturating_sub(1)].to_vec(),
+        _ => seq.to_vec(),
+    }
+}
+
+/// position-weighted checksum of a score matrix, printed for the intermediate steps
+fn digest(sc: &StripedScores<u8, U32>) -> String {
+    let m = sc.matrix();
+    let mut d: u64 = 0;
+    for r in 0..m.rows() {
+        for c in 0..32 {
+            let idx = (r * 32 + c) as u64;
+            d = (d + (m[r][c] as u64) * ((idx % 251) + 1)) % 1_000_003;
+        }
+    }
+    format!("{}:{}:{}", m.rows(), sc.max_index(), d)
+}
+
+/// One history: steps `;`-separated,
+///   `<be>.<motif variant>.<seq variant>.<F | lo:hi>`   be: G S A = Pipeline::generic()/sse2()/avx2(), g s a = dispatch() forced
+///   `R.<rows>.<max_index>`  scores.resize      `Z.<v>`  scores.matrix_mut().fill(v)
+/// all on one `StripedScores<u8, U32>` that starts as `StripedScores::empty()`.  Returns (per-step
+/// `rows:max:digest`, `;`-separated; the first step that panics prints `P` and ends the history) and the
+/// final buffer in full (`P` when the history was cut).
+fn run_history(rows: &[[f32; 5]], seq: &[Nucleotide], hist: &str) -> (String, String) {
+    let m = rows.len();
+    let mut buf = StripedScores::<u8, U32>::empty();
+    let mut obs: Vec<String> = vec![];
+    let mut cut = false;
+    for step in hist.split(';') {
+        let t: Vec<&str> = step.split('.').collect();
+        if t.len() < 2 {
+            obs.push("BAD".to_string());
+            cut = true;
+            break;
+        }
+        let ok: Option<()> = match t[0] {
+            "R" => {
+                let r: usize = t[1].parse().unwrap();
+                let mx: usize = t[2].parse().unwrap();
+                no_panic(|| buf.resize(r, mx))
+            }
+            "Z" => {
+                let v: u8 = t[1].parse().unwrap();
+                no_panic(|| buf.matrix_mut().fill(v))
+            }
+            be => {
+                let mv: usize = t[1].parse().unwrap();
+                let sv: usize = t[2].parse().unwrap();
+                let vrows = motif_variant(rows, mv);
+                let vseq = seq_variant(seq, m, sv);
+                let pssm = ScoringMatrix::<Dna>::new(Background::uniform(), DenseMatrix::from_rows(vrows.iter()));
+                let dm = match no_panic(|| pssm.to_discrete()) {
+                    None => {
+                        obs.push("VP".to_string());
+                        cut = true;
+                        break;
+                    }
+                    Some(d) => d,
+                };
+                let arm = match be {
+                    "g" => Some(Dispatch::Generic),
+                    "s" => Some(Dispatch::Sse2),
+                    "a" => Some(Dispatch::Avx2),
+                    _ => None,
+                };
+                if (be == "a" || be == "A") && Pipeline::<Dna, lightmotif::pli::platform::Avx2>::avx2().is_err() {
+                    obs.push("U".to_string());
+                    cut = true;
+                    break;
+                }
+                if be == "S" && Pipeline::<Dna, Sse2>::sse2().is_err() {
+                    obs.push("U".to_string());
+                    cut = true;
+                    break;
+                }
+                force_backend(arm);
+                let st: Option<StripedSequence<Dna, U32>> = no_panic(|| {
+                    let mut s: StripedSequence<Dna, U32> = EncodedSequence::<Dna>::new(vseq.clone()).to_striped();
+                    s.configure(&pssm);
+                    s
+                });
+                let r = match st {
+                    None => {
+                        force_backend(None);
+                        obs.push("SP".to_string());
+                        cut = true;
+                        break;
+                    }
+                    Some(st) => {
+                        let range: Option<(usize, usize)> = if t[3] == "F" {
+                            None
+                        } else {
+                            let ab: Vec<usize> = parse_list(t[3], ':');
+                            Some((ab[0], ab[1]))
+                        };
+                        no_panic(|| match (be, range) {
+                            ("G", None) => Pipeline::<Dna, Generic>::generic().score_into(&dm, &st, &mut buf),
+                            ("G", Some((a, b))) => Pipeline::<Dna, Generic>::generic().score_rows_into(&dm, &st, a..b, &mut buf),
+                            ("S", None) => Pipeline::<Dna, Sse2>::sse2().unwrap().score_into(&dm, &st, &mut buf),
+                            ("S", Some((a, b))) => Pipeline::<Dna, Sse2>::sse2().unwrap().score_rows_into(&dm, &st, a..b, &mut buf),
+                            ("A", None) => Pipeline::<Dna, lightmotif::pli::platform::Avx2>::avx2().unwrap().score_into(&dm, &st, &mut buf),
+                            ("A", Some((a, b))) => Pipeline::<Dna, lightmotif::pli::platform::Avx2>::avx2().unwrap().score_rows_into(&dm, &st, a..b, &mut buf),
+                            (_, None) => Pipeline::<Dna, Dispatch>::dispatch().score_into(&dm, &st, &mut buf),
+                            (_, Some((a, b))) => Pipeline::<Dna, Dispatch>::dispatch().score_rows_into(&dm, &st, a..b, &mut buf),
+                        })
+                    }
+                };
+                force_backend(None);
+                r
+            }
+        };
+        match ok {
+            None => {
+                obs.push("P".to_string());
+                cut = true;
+                break;
+            }
+            Some(()) => obs.push(digest(&buf)),
+        }
+    }
+    let fin = if cut { "P".to_string() } else { show_scores(Some(buf)) };
+    (obs.join(";"), fin)
 }
 
 // ------------------------------------------------------------------ generator
@@ -512,6 +683,73 @@ fn gen_matrix(rng: &mut Rng, tier: &str) -> (String, Vec<[f32; 5]>) {
                     rows.push([0.0, -1.0, -2.0, 1.0, f32::NEG_INFINITY]);
                 }
             }
+        }
+    } else if k >= 48 && k < 51 {
+        // tiny non-zero score range: an ordinary matrix scaled by 2^-e (range <= 255 * f32::EPSILON and far
+        // below; factor tiny or SUBNORMAL, still well conditioned), or ordinary cells a few ulps apart
+        // (range of a few f32::EPSILON around 1: ill conditioned)
+        kind = "tiny";
+        if rng.chance(2, 3) {
+            let e = *rng.pick(&[17i32, 20, 24, 40, 100, 118, 120, 124, 126, 130, 140]);
+            let sc = 2f64.powi(-e);
+            for _ in 0..m {
+                let mut r = [0f32; 5];
+                for j in 0..4 {
+                    r[j] = (rand_f32(rng, -8.0, 2.0) as f64 * sc) as f32;
+                }
+                rows.push(r);
+            }
+        } else {
+            let base = *rng.pick(&[1.0f32, -1.0, 0.5, 3.0]);
+            for _ in 0..m {
+                let mut r = [0f32; 5];
+                for j in 0..4 {
+                    r[j] = f32::from_bits(base.to_bits() + rng.below(4) as u32);
+                }
+                rows.push(r);
+            }
+        }
+    } else if k >= 51 && k < 53 {
+        // one huge cell (the factor is set by it: every other positive difference rounds up to 1 byte unit),
+        // or one huge negative cell
+        kind = "hugecell";
+        for _ in 0..m {
+            let mut r = [0f32; 5];
+            for j in 0..4 {
+                r[j] = rand_f32(rng, -8.0, 2.0);
+            }
+            rows.push(r);
+        }
+        let i = rng.below(m as u64) as usize;
+        let j = rng.below(4) as usize;
+        rows[i][j] = *rng.pick(&[1.0e30f32, 1.0e38, -1.0e30, 3.0e38, 1.0e9, -1.0e38, 65536.0]);
+    } else if k >= 53 && k < 56 {
+        // CpG-like: the whole score range sits in ONE pair of adjacent rows (2-row motifs, or wider motifs whose
+        // other rows are constant / almost flat), so that the two rounded-up cells of the pair add up to 256 or
+        // more: a kernel that pre-adds two rows with a wrapping add under-estimates the consensus word
+        kind = "cpg";
+        let mm = if rng.chance(1, 2) { 2 } else { m.max(2) };
+        let p = if mm == 2 { 0 } else { rng.below((mm - 1) as u64) as usize };
+        let hi = *rng.pick(&[2.0f32, 1.0, 1.5, 0.75]);
+        for i in 0..mm {
+            let mut r = [0f32; 5];
+            if i == p || i == p + 1 {
+                let lo = -hi * (*rng.pick(&[1.0f32, 1.0, 0.999, 1.01, 2.0]));
+                let best = rng.below(4) as usize;
+                for j in 0..4 {
+                    r[j] = if j == best { hi } else { lo };
+                }
+                if rng.chance(1, 4) {
+                    r[(best + 1) % 4] = hi;
+                }
+            } else {
+                let v = rand_f32(rng, -1.0, 1.0);
+                let wob = *rng.pick(&[0.0f32, 0.0, 1.0e-4, 1.0e-3]);
+                for j in 0..4 {
+                    r[j] = v + wob * (rng.below(3) as f32);
+                }
+            }
+            rows.push(r);
         }
     } else if k < 56 {
         // arbitrary finite cells of moderate size
@@ -1095,7 +1333,87 @@ fn gen_case(rng: &mut Rng, id: usize, tier: &str) -> String {
     }
     let (kind, rows) = gen_matrix(rng, tier);
     let seq = gen_seq(rng, &rows, tier);
-    case_line(rng, &id.to_string(), &kind, &rows, &seq)
+    let line = case_line(rng, &id.to_string(), &kind, &rows, &seq);
+    // histories on one reused score buffer: 30% of the DNA cases
+    if rng.chance(3, 10) {
+        let l = if seq == "-" { 0 } else { seq.len() };
+        format!("{} hist={}", line, gen_hists(rng, rows.len(), l))
+    } else {
+        line
+    }
+}
+
+fn variant_len_m(m: usize, v: usize) -> usize {
+    match v {
+        1 => (m + 1) / 2,
+        2 => m.saturating_sub(1),
+        3 => if m <= 12 { 2 * m } else { m },
+        _ => m,
+    }
+}
+
+fn variant_len_l(l: usize, m: usize, v: usize) -> usize {
+    match v {
+        1 => l / 3,
+        2 => (2 * l).min(l + 40),
+        3 => l.min(m.max(1) - 1),
+        4 => l.saturating_sub(1),
+        _ => l,
+    }
+}
+
+/// 2-3 histories for one case: steps on one buffer with different motif / sequence variants, row ranges,
+/// pipelines; shrinking then growing; resize / fill by the caller in between; every history ends with
+/// `score_into` of the main motif on the main sequence, so that the final buffer must satisfy C08.
+fn gen_hists(rng: &mut Rng, m: usize, l: usize) -> String {
+    let mut hists: Vec<String> = vec![];
+    let nh = 2 + rng.below(2) as usize;
+    for h in 0..nh {
+        // history 0: one pipeline throughout; the others: pipelines mixed on the same buffer
+        let bes = ["G", "A", "a", "g", "S", "s"];
+        let fixed = *rng.pick(&bes);
+        let mut steps: Vec<String> = vec![];
+        let n = 2 + rng.below(4) as usize;
+        for _ in 0..n {
+            let be = if h == 0 { fixed } else { *rng.pick(&bes) };
+            match rng.below(12) {
+                0 => {
+                    steps.push(format!("R.{}.{}", rng.below(30), rng.below(900)));
+                    continue;
+                }
+                1 => {
+                    steps.push(format!("Z.{}", *rng.pick(&[255u8, 255, 0, 7, 200])));
+                    continue;
+                }
+                _ => {}
+            }
+            let mut mv = *rng.pick(&[0usize, 0, 1, 2, 3]);
+            if variant_len_m(m, mv) == 0 && !rng.chance(1, 8) {
+                mv = 0;
+            }
+            let sv = *rng.pick(&[0usize, 0, 1, 2, 2, 3, 4]);
+            let lv = variant_len_l(l, m, sv);
+            let mvl = variant_len_m(m, mv);
+            let r = (lv + 31) / 32;
+            let range = match rng.below(20) {
+                0..=7 => "F".to_string(),
+                8 => format!("{}:{}", r.saturating_sub(1), r),   // the last sequence row only
+                9 => format!("0:{}", r + mvl.min(1)),             // reaches into the wrap rows: every arm panics, the history ends
+                10 => "0:0".to_string(),
+                11 => "1:1".to_string(),
+                _ => {
+                    let a = rng.below(r as u64 + 1) as usize;
+                    let b = a + rng.below((r - a) as u64 + 1) as usize;
+                    format!("{}:{}", a, b)
+                }
+            };
+            steps.push(format!("{}.{}.{}.{}", be, mv, sv, range));
+        }
+        let be = if h == 0 { fixed } else { *rng.pick(&bes) };
+        steps.push(format!("{}.0.0.F", be));
+        hists.push(steps.join(";"));
+    }
+    hists.join("|")
 }
 
 /// Boundary cases written once to corpus/C08/boundary.txt (`disc corpus`).
